@@ -283,7 +283,20 @@ func init() {
 				items = append(items, ordered.TupleSS{Key: items[j].Key, Value: real})
 				stat("C10", "block-from-repeated-pairs")
 			}
-			p := &pipeline.Pipeline{Env: ordered.MapFromItems(items...), Steps: pipeline.Steps{&pipeline.CommandStep{Command: probe.raw}}}
+			envMap := ordered.MapFromItems(items...)
+			if len(block) >= 4 && rng.Chance(12) {
+				// the same block assembled by hand: a junk entry is removed again (its slot stays behind, the map is
+				// too large to be compacted) before the last entry is added
+				envMap = ordered.NewMap[string, string](0)
+				envMap.Set("ZZ_JUNK_ENTRY", "junk")
+				for _, pr := range block[:len(block)-1] {
+					envMap.Set(pr[0], pr[1])
+				}
+				envMap.Delete("ZZ_JUNK_ENTRY")
+				envMap.Set(block[len(block)-1][0], block[len(block)-1][1])
+				stat("C10", "block-assembled-with-tombstone")
+			}
+			p := &pipeline.Pipeline{Env: envMap, Steps: pipeline.Steps{&pipeline.CommandStep{Command: probe.raw}}}
 			refEnv := env.clone()
 			useLib := it%3 == 1 && !rawClash
 			var libEnv pipeline.InterpolationEnv
